@@ -83,7 +83,7 @@ Theorem names_correct_cfg dfc c : in_domain c = true -> kf_C06 c = false -> kf_c
 Proof. intros Hd Hk Hcfg. unfold emitted_keys, emitted_keys_raw, serde_wire_names.
   unfold kf_C06 in Hk. repeat (apply orb_false_iff in Hk as [Hk ?]).
   rewrite (struct_attrs_container c Hd) by assumption.
-  unfold in_domain in Hd. apply andb_true_iff in Hd as [Hd _]. apply andb_true_iff in Hd as [Hd _]. apply andb_true_iff in Hd as [Hitems _].
+  unfold in_domain in Hd. apply andb_true_iff in Hd as [Hd _]. unfold in_domain0 in Hd. apply andb_true_iff in Hd as [Hd _]. apply andb_true_iff in Hd as [Hd _]. apply andb_true_iff in Hd as [Hitems _].
   match goal with X : kf_rename_text c = false |- _ => unfold kf_rename_text in X; apply orb_false_iff in X as [Hrt _] end.
   unfold kf_skip_text, kf_skip_beside, kf_rename_escape in *.
   apply emit_ok; try assumption.
@@ -212,3 +212,24 @@ Lemma spellings_repaired :
 Proof. vm_compute. repeat split. Qed.
 Lemma variant_marker_is_variant sh : named_as_variant (variant_marker sh) = true.
 Proof. destruct sh; reflexivity. Qed.
+
+(* ------------------------------------------------------------------ deepening round 7: the widened domain *)
+(* the former, ASCII-only domain is inside the new one *)
+Lemma domain_ascii c : in_domain0 c = true ->
+  forallb (fun it => is_ascii_str (unraw (it_ident it))) (c_items c) = true -> in_domain c = true.
+Proof. intros H0 Ha. unfold in_domain. rewrite H0. cbn [andb]. apply forallb_forall. intros it Hit.
+  pose proof (proj1 (forallb_forall _ _) Ha it Hit) as H. cbn beta in H. unfold uni_rule_ok. rewrite H. reflexivity. Qed.
+(* non-ASCII identifiers: struct under SCREAMING-KEBAB-CASE, enum under UPPERCASE and under camelCase with an
+   ASCII first character; out of the domain: a SnakeCase-based variant rule, camelCase with a non-ASCII head *)
+Definition wu_struct : container := {| c_kind := KStruct; c_attrs := [[CRenameAll (L "SCREAMING-KEBAB-CASE")]];
+  c_items := [it0 "größe_x" []; it0 "naïve_été" [[MOther (L "default") None]]; it0 "名前" [[MRename (L "name")]]; it0 "x_ß" [[MSkip]]] |}.
+Definition wu_enum (r : string) (v : string) : container := {| c_kind := KEnum; c_attrs := [[CRenameAll (L r)]];
+  c_items := [it0 v []; it0 "Done" []] |}.
+Lemma unicode_examples :
+  in_domain wu_struct = true /\ kf_C06 wu_struct = false /\
+  emitted_keys default_field_case wu_struct = [L "GRößE-X"; L "NAïVE-éTé"; L "name"] /\
+  in_domain (wu_enum "UPPERCASE" "Été") = true /\ emitted_keys default_field_case (wu_enum "UPPERCASE" "Été") = [L "ÉTé"; L "DONE"] /\
+  in_domain (wu_enum "camelCase" "Naïve") = true /\ emitted_keys default_field_case (wu_enum "camelCase" "Naïve") = [L "naïve"; L "done"] /\
+  in_domain (wu_enum "snake_case" "Été") = false /\ in_domain (wu_enum "camelCase" "Été") = false /\
+  in_domain (wu_enum "snake_case" "Ete") = true.
+Proof. vm_compute. repeat split. Qed.
